@@ -292,8 +292,9 @@ def same(model, impl):
     return True
 
 
-def replay_text(why, script, expect=None):
-    return "# C13: %s\n%s--- script\n%s" % (why, ("expect-last %s\n" % expect) if expect else "", script)
+def replay_text(why, script, expect=None, geom=None):
+    """`abs-chunk geom …` makes `bin/check C13 --replay f` re-judge the record with the Lean predicate (vlib/absmeta.py replay_c13)"""
+    return "# C13: %s\n%s%s--- script\n%s" % (why, ("expect-last %s\n" % expect) if expect else "", ("abs-chunk %s\n" % geom) if geom else "", script)
 
 
 def check_known(ctx):
@@ -366,6 +367,8 @@ def custom_only(lines, ids):
 
 def run(ctx):
     if getattr(ctx, "replay", None):
+        if A.is_chunk_replay(ctx.replay):
+            return A.replay_c13(ctx, ctx.replay)
         return ctx.replay_script(ctx.replay)
     failed = ctx.lean_stage(modules_for("C13"))
     found_input = False
@@ -448,7 +451,7 @@ def run(ctx):
             if why and unknown:
                 found_input = True
                 v("class-" + name, replay_text("%s: %s; class(es) of the script: %s (%s)" % (name, why, ",".join(unknown),
-                                  "no known finding covers them" if not any(cl in CLASS_TO_KF for cl in unknown) else "the known finding no longer reproduces with its signature"), script))
+                                  "no known finding covers them" if not any(cl in CLASS_TO_KF for cl in unknown) else "the known finding no longer reproduces with its signature"), script, geom=A.chunk_geom(cont, meta)))
             continue
         why = A.combine_c13(ctx, name, verdicts.get(name), predicate(cont, script, pairs, meta))
         mcmp, icmp = ml[1:], il
@@ -461,7 +464,7 @@ def run(ctx):
             continue
         if why:
             found_input = True
-            v("prop-" + name, replay_text("%s (%s): %s" % (name, cont, why), script))
+            v("prop-" + name, replay_text("%s (%s): %s" % (name, cont, why), script, geom=A.chunk_geom(cont, meta)))
             continue
         ml, il = [ml[0]] + mcmp, icmp
         if why is None and not same(ml[1:], il):
